@@ -31,6 +31,11 @@ NEED_COUNTERS = [
     "rt_native_over_4096", "rt_kind_inv-only", "rt_kind_big-header", "rt_kind_no-gates", "rt_bristol_ok",
     "rt_native_ok_std", "rt_native_ok_chunked", "rt_native_ok_chunked-salted", "fuzz_mpclc_ok", "fuzz_mpclc_error", "fuzz_bristol_ok", "fuzz_bristol_error",
     "types_in_grammar", "types_text_ok", "types_text_error",
+    # one single name / type string of each of these lengths (around and beyond the bufio buffer)
+    "rt_long_string_len_4095", "rt_long_string_len_4096", "rt_long_string_len_4097", "rt_long_string_len_5000",
+    "rt_long_string_len_8191", "rt_long_string_len_8192", "rt_long_string_len_8193", "rt_long_string_len_100000",
+    "rt_kind_long-string-v0", "rt_kind_long-string-v1", "rt_kind_long-string-v2", "rt_kind_long-string-v3",
+    "rt_kind_long-string-v4", "corpus_mpclc_valid_ok",
 ]
 
 
@@ -115,7 +120,8 @@ def run(ctx):
     ctx.coverage["rule"] = (
         "rt: random well-formed circuits (INV-only, no gates, 5 gate mixes, wire reuse) with random I/O signature trees "
         "(empty/binary/long names, struct members nested, arrays, slices, unsized and out-of-grammar types), struct "
-        "headers of 30..450 members (files up to ~20 kB); each marshalled in both formats and parsed back through "
+        "headers of 30..450 members (files up to ~20 kB), ONE single name (top level, compound member, output) or type "
+        "text (nested arrays) of 4095/4096/4097/5000/8191/8192/8193/100000 bytes; each marshalled in both formats and parsed back through "
         "bytes.Reader, two short-reading readers and a one-buffer reader. fuzz: 1-3 of 20 field-aware native / 16 "
         "token-aware Bristol mutations (truncate, extend by valid/duplicate/random records, bit flips, count and wire "
         "splices incl. boundary values and 10^6, string replacement, line/white-space/number-syntax variants incl. "
